@@ -73,7 +73,16 @@ class FileProxy:
         return getattr(self._f, name)
 
     def __deepcopy__(self, memo):
-        raise vsched.HarnessError("an open file was copied into a process (fork after open is not modelled)")
+        # fork() with an open file: the child's file object refers to the SAME open file description (shared
+        # offset).  Modelled with a dup()ed descriptor; the user-space buffer is not carried over (the storage seeks
+        # before every read and flushes after every write, so nothing is lost by that).
+        f = self._f
+        if f.closed:
+            return FileProxy(f, self._path)
+        if f.writable():
+            f.flush()
+        nf = os.fdopen(os.dup(f.fileno()), f.mode, encoding=getattr(f, "encoding", None))
+        return FileProxy(nf, self._path)
 
 
 def traced_open(path, mode="r", *a, **kw):
@@ -97,7 +106,7 @@ def text_of(w, g, k=0):
 
 class Cfg:
     def __init__(self, name, writers, reads, presize=None, reader="process", sequential=False, family=None,
-                 after_flush=(), required=(), parent_ids=()):
+                 after_flush=(), required=(), parent_ids=(), after_flush_by="parent"):
         self.name = name
         self.writers = [list(w) for w in writers]     # per writer: ids to store, in order
         self.reads = list(reads)                      # ids the reader asks for, in order
@@ -107,12 +116,14 @@ class Cfg:
         self.family = family or ("seq" if sequential else "conc")
         self.after_flush = list(after_flush)          # ids the parent stores after close()+flush()
         self.parent_ids = list(parent_ids)            # ids the parent itself stores first (then closes)
+        self.after_flush_by = after_flush_by          # parent | process: who stores after the flush (the parent then only reads)
         self.required = list(required)
         self.workers = len(self.writers)
 
     def describe(self):
         return {"name": self.name, "writers": self.writers, "reads": self.reads, "presize": self.presize,
-                "reader": self.reader, "sequential": self.sequential, "after_flush": self.after_flush, "parent_ids": self.parent_ids}
+                "reader": self.reader, "sequential": self.sequential, "after_flush": self.after_flush, "parent_ids": self.parent_ids,
+                "after_flush_by": self.after_flush_by}
 
 
 def make_driver(cfg):
@@ -200,12 +211,20 @@ def make_driver(cfg):
             st.reader_only = False
             st.close()
             st.flush()
+            log.add("P", "flushed")
             fl = {"listdir": sorted(os.listdir(d)), "len": safe(lambda: len(st)), "list": safe(lambda: list(st)),
                   "lookup0": safe(lambda: st[0]), "contiguous": safe(st.is_contiguous)}
             if cfg.after_flush:
                 res = []
-                for g in cfg.after_flush:
-                    res.append(safe(lambda: st.__setitem__(g, text_of("P", g))))
+                if cfg.after_flush_by == "process":
+                    # a new writer process stores the second round; the parent stays a pure reader across the flush
+                    w2 = Writer(st, "A", cfg.after_flush)
+                    w2.start()
+                    w2.join()
+                    res = [("ok", None)] * len(cfg.after_flush)
+                else:
+                    for g in cfg.after_flush:
+                        res.append(safe(lambda: st.__setitem__(g, text_of("P", g))))
                 st.close()
                 st.reader_only = True
                 with st:
@@ -262,6 +281,10 @@ def judge(cfg, r):
         v.append(("C14", {"family": fam, "kind": "thread-exception", "role": role, "exc": ename},
                   "%s: %s died with %s: %s" % (cfg.name, role, ename, msg), {"traceback": tb}))
     log = out["log"].entries
+    for i, e in enumerate(log):
+        if e[3] == "flushed":
+            log = log[:i]           # the second round (after flush) is judged through out["flush"]["after"]
+            break
     oks = {}           # g -> list of (entry, text)
     attempts = {}
     for e in log:
@@ -287,7 +310,7 @@ def judge(cfg, r):
             g, val = e[4]
             st_e = pending_start.get(e[0])
             texts = [x[4][1] for x in oks.get(g, [])]
-            all_texts = {text_of(w, g, k) for w in list(range(len(cfg.writers))) + ["P"] for k in range(3)}
+            all_texts = {text_of(w, g, k) for w in list(range(len(cfg.writers))) + ["P", "A"] for k in range(3)}
             if val is None:
                 # IndexError is wrong only if a successful store of g happens-before the start of this read
                 for x in oks.get(g, []):
@@ -332,7 +355,7 @@ def judge(cfg, r):
                     v.append(("C14", {"family": fam, "kind": "flush-not-reset", "how": "store-raises"},
                               "%s: storing %r after close()+flush() -> %r" % (cfg.name, cfg.after_flush, fl["after_stores"]), {}))
                 else:
-                    exp = {g: text_of("P", g) for g in cfg.after_flush}
+                    exp = {g: text_of("A" if cfg.after_flush_by == "process" else "P", g) for g in cfg.after_flush}
                     for item in check_obs(cfg, fl["after"], exp, "after flush + new stores"):
                         v.append(("C14", dict(item[1], kind="flush-not-reset"), item[2], {}))
                 if fl.get("listdir2"):
@@ -418,6 +441,9 @@ def plan_for(tier):
     plan.append((Cfg("Sdup[[0,1,0],[1,2]]", [[0, 1, 0], [1, 2]], [0, 1, 2], sequential=True, after_flush=[0]), 0, 0, None))
     plan.append((Cfg("Sflush[[2],[0]]", [[2], [0]], [0, 2], sequential=True, after_flush=[0, 2, 1]), 0, 0, None))
     plan.append((Cfg("Spar[P:0|[1]]", [[1]], [0, 1], sequential=True, parent_ids=[0], after_flush=[0]), 0, 0, None))
+    plan.append((Cfg("Sround2[[0,1]|A:1,0]", [[0, 1]], [0, 1], sequential=True, after_flush=[1, 0], after_flush_by="process"), 0, 0, None))
+    plan.append((Cfg("Sround2[[1],[0]|A:0,2]", [[1], [0]], [0, 1], sequential=True, after_flush=[0, 2], after_flush_by="process"), 0, 0, None))
+    plan.append((Cfg("Kround2[w0:0|w1:1|R|A:0,1]", [[0], [1]], [0, 1], after_flush=[0, 1], after_flush_by="process"), b, 0, None))
     plan.append((Cfg("Spar[P:1,0|[]]", [], [0, 1], sequential=True, parent_ids=[1, 0], after_flush=[1]), 0, 0, None))
     plan.append((Cfg("Kpar[P:0|w0:1|R]", [[1]], [0, 1, 0], parent_ids=[0], after_flush=[0]), b, 0, None))
     return plan, grid
@@ -438,7 +464,7 @@ def replay(rec):
     rp = rec["replay"]
     c = rp["config"]
     cfg = Cfg(c["name"], c["writers"], c["reads"], c["presize"], c["reader"], c["sequential"], after_flush=c["after_flush"],
-              parent_ids=c.get("parent_ids", ()))
+              parent_ids=c.get("parent_ids", ()), after_flush_by=c.get("after_flush_by", "parent"))
     from mc.par import pin_self
     pin_self()
     racy = {(tuple(a), b) for a, b in rp["racy"]}
